@@ -313,6 +313,63 @@ func propC08(run *Run, n int) {
 	for i := 0; i < n; i++ {
 		c := choices[r.Intn(len(choices))]
 		cfg := c.cfg()
+		if len(cfg.SetKeys) > 1 && r.Chance(1, 5) {
+			// directed: a member whose set key k is null (or absent) changes in a non-key field, so the
+			// hunk addresses it by {"id":…,"k":null}; the target holds, in front of it or behind it, the
+			// twin with the other spelling (absent / null): two identities, the exact one has precedence
+			a := cfg.Arr(r, 0)
+			objs := []int{}
+			for j, e := range a.A {
+				if e.K == KObj {
+					if _, ok := e.O["id"]; ok {
+						objs = append(objs, j)
+					}
+				}
+			}
+			if len(objs) > 0 {
+				j := objs[r.Intn(len(objs))]
+				absent := r.Chance(1, 2)
+				if absent {
+					delete(a.A[j].O, "k")
+				} else {
+					a.A[j].O["k"] = VNull()
+				}
+				a.A[j].O["a"] = VNum(1)
+				a = cfg.fixKeyed(a)
+				b := a.Clone()
+				for _, e := range b.A {
+					if e.K == KObj && e.O["a"] != nil && e.O["a"].K == KNum && e.O["a"].N == 1 {
+						if kv, has := e.O["k"]; (absent && !has) || (!absent && has && kv.K == KNull) {
+							e.O["a"] = VNum(2)
+						}
+					}
+				}
+				dw := implDiff(c.o, a.Wire(), b.Wire())
+				t := a.Clone()
+				for jj, e := range t.A {
+					if e.K == KObj && e.O["a"] != nil && e.O["a"].K == KNum && e.O["a"].N == 1 {
+						kv, has := e.O["k"]
+						if (absent && !has) || (!absent && has && kv.K == KNull) {
+							tw := e.Clone()
+							if absent {
+								tw.O["k"] = VNull()
+							} else {
+								delete(tw.O, "k")
+							}
+							if r.Chance(1, 2) {
+								t.A = append(t.A[:jj], append([]*Val{tw}, t.A[jj:]...)...)
+							} else {
+								t.A = append(t.A, tw)
+							}
+							run.Count("target:directed-null-twin")
+							break
+						}
+					}
+				}
+				addC08Case(run, c.lbl, t, dw)
+				continue
+			}
+		}
 		var a *Val
 		if r.Chance(2, 3) {
 			a = cfg.Arr(r, 0)
@@ -349,9 +406,64 @@ func propC08(run *Run, n int) {
 				addSwappedKeyMember(r, t, cfg.SetKeys)
 				t = cfg.fixKeyed(t) // keep identities pairwise distinct inside every array
 			}
+			if len(cfg.SetKeys) > 1 && r.Chance(1, 3) {
+				if addNullTwin(r, t, cfg.SetKeys) {
+					run.Count("target:null-twin")
+				}
+			}
 			addC08Case(run, c.lbl, t, joinHunks(sub))
 		}
 	}
+}
+
+// addNullTwin inserts, in front of a keyed member one of whose set keys is null (or absent), a twin
+// that lacks that key (or holds null for it): two members with different identities which the path
+// object {"k":null} both could denote — the one with the key values of the path has precedence.
+func addNullTwin(r *Rng, v *Val, keys []string) bool {
+	switch v.K {
+	case KArr:
+		for i, e := range v.A {
+			if e.K != KObj {
+				continue
+			}
+			for _, k := range keys {
+				kv, has := e.O[k]
+				if has && kv.K != KNull {
+					continue
+				}
+				others := 0
+				for _, k2 := range keys {
+					if _, ok := e.O[k2]; ok && k2 != k {
+						others++
+					}
+				}
+				if others == 0 || !r.Chance(2, 3) {
+					continue
+				}
+				c := e.Clone()
+				if has {
+					delete(c.O, k)
+				} else {
+					c.O[k] = VNull()
+				}
+				c.O["x"] = VNum(7)
+				v.A = append(v.A[:i], append([]*Val{c}, v.A[i:]...)...)
+				return true
+			}
+		}
+		for _, e := range v.A {
+			if addNullTwin(r, e, keys) {
+				return true
+			}
+		}
+	case KObj:
+		for _, k := range v.Keys() {
+			if addNullTwin(r, v.O[k], keys) {
+				return true
+			}
+		}
+	}
+	return false
 }
 
 // addSwappedKeyMember inserts, in front of some keyed member of an array, a copy whose key values are
